@@ -375,9 +375,9 @@ Qed.
 Theorem unmatched_url_raises_notfound P W ri st :
   ri_root_raise ri = None ->
   not_found (call_view (w_reg W) view_classifier (ri_req ri)) ->
-  main_handler P W ri st = (Raise id_h_nf, st) \/ main_handler P W ri st = (Raise id_h_pme, st).
+  main_handler P W ri false st = (Raise id_h_nf, st) \/ main_handler P W ri false st = (Raise id_h_pme, st).
 Proof.
-  intros Hroot [H|H]; unfold main_handler; rewrite Hroot, H; auto.
+  intros Hroot [H|H]; unfold main_handler, req_of; rewrite Hroot, H; auto.
 Qed.
 
 (* refused permission: the secured view raises HTTPForbidden before its body *)
@@ -385,8 +385,8 @@ Theorem refused_permission_raises_forbidden P W ri st t :
   ri_root_raise ri = None ->
   call_view (w_reg W) view_classifier (ri_req ri) = Ran t ->
   b_perm (body_of (w_bodies W) t) = true -> ri_deny ri = true ->
-  main_handler P W ri st = (Raise id_h_forb, st).
+  main_handler P W ri false st = (Raise id_h_forb, st).
 Proof.
-  intros Hroot Hc Hp Hd. unfold main_handler. rewrite Hroot, Hc. unfold run_body. rewrite Hp, Hd. simpl.
+  intros Hroot Hc Hp Hd. unfold main_handler, req_of. rewrite Hroot, Hc. unfold run_body. rewrite Hp, Hd. simpl.
   rewrite app_nil_r. destruct st; reflexivity.
 Qed.
